@@ -3,35 +3,53 @@
 from __future__ import annotations
 
 import ast
+import re
 
 from .. import astq
 from ..cfg import cfg_of
-from ..dataflow import ReachingDefs
-from ..effects import MODEL_DOC, Effects, Site
-from ..fold import Folder, RegexConst, Unfoldable, classes_in, group_width, single_class, width
+from ..effects import INF, MODEL_DOC, Effects, Flow, Site, const_int, const_text
+from ..fold import Folder, sre_c, width
 from ..loader import AnalysisError, ClassInfo, FuncInfo, dotted, norm, walk_no_nested
 from ..report import Ctx
-from .c07_reviewed import REVIEWED, check_premise
+from .c07_reviewed import A, p_form_parser_silent, review
 
 LEVEL_TEXT = (
     "Static exception-effect analysis for C07 on /repo's current source. Entry points are enumerated from the source: the "
     "15 parse_* functions of werkzeug.http, Authorization/WWWAuthenticate.from_header, and every property, cached_property, "
     "header_property and environ_property of sansio.Request and wrappers.Request. (R7.1) Over the resolved call graph from "
-    "these entry points, every explicit raise and every modelled failing operation of builtins/stdlib (int/float of a str, "
-    "strict decode/encode, base64, urlsplit/.port, parsedate_to_datetime, timedelta, next, index, split-unpack, constant "
-    "index, Optional match, assert, Enum(value), to_bytes ...) either raises a werkzeug HTTPException, or is covered by an "
-    "enclosing handler on every call path (real exception lattice), or by a recognised dominating guard idiom, or by a "
-    "line of the reviewed table whose premise (a structural fact about other code) is re-checked on every run. A new "
-    "risky site is reported until reviewed (fail-closed). (R7.2) every while loop reachable from an entry point has a "
-    "progress argument. (R7.3) the lenient decoders named by the property keep their fallbacks. Not decided: operations "
-    "outside the model (variable-key mapping lookups, attribute errors other than Optional regex matches), termination of "
-    "library regex engines, resource exhaustion."
+    "these entry points (incl. self.<property>.<method>() on the class the property's getter constructs and the "
+    "io.RawIOBase read -> readall/readinto dispatch), every explicit raise and every modelled failing operation of "
+    "builtins/stdlib (int/float of a str, strict decode/encode, base64, urlsplit/.port, parsedate_to_datetime, timedelta, "
+    "next, index, split-unpack, constant index, Optional match, assert, Enum(value), to_bytes, and read(n)/bytearray(n)/"
+    "bytes(n) whose size provably flows unbounded from a text->int conversion of client text) either raises a werkzeug "
+    "HTTPException, or is covered by an enclosing handler on every call path (real exception lattice), or by a guard idiom, "
+    "or by a reviewed role. Guard idioms and roles do not match source text: the operand is identified by data flow "
+    "(reaching definitions, tuple/list/dict projections, regex group widths, parameter binding to the call sites on the "
+    "escaping chain, return values of package helpers) and the dominating conditions are compared as canonical atoms with "
+    "local aliases / boolean flags expanded and a freshness check (no rebinding of a tested name between test and use), "
+    "including tests in the caller of a helper and the conditions of enclosing conditional expressions. A reviewed role "
+    "(input-model latin-1 text, application flag, abstract method, application's own value, Accept pair, fallback search, "
+    "regex-matched number, octal escape, ASCII bytes, range constructor, validated constructor) re-establishes its premise "
+    "on every run on the code as it is shaped now; a premise anchor of an unknown shape is ANALYSIS-ERROR, a false premise "
+    "a violation. A new risky site is reported until reviewed (fail-closed). (R7.2) every while loop reachable from an "
+    "entry point passes, on every path back to its head, a statement that strictly advances (positive increment, slice "
+    "with a lower bound >= 1, match.end() of a pattern that cannot match empty there) or a reviewed progress maker "
+    "identified by what it calls (MultipartDecoder.next_event with a NEED_DATA exit; a stream read with an exit on the "
+    "empty read). (R7.3) the lenient decoders named by the property keep their fallbacks. Not decided: operations outside "
+    "the model (variable-key mapping lookups, attribute errors other than Optional regex matches, sizes whose origin is "
+    "not provably a parsed client integer), termination of library regex engines, resource exhaustion in general."
 )
-TRUSTED = ["CPython ast and the builtin exception class hierarchy", "the library model table (wzsa/effects.py MODEL_DOC), each entry a documented fact about CPython 3.12", "name resolution of calls by the loader (unresolved dynamic calls are listed in the evidence)"]
+TRUSTED = [
+    "CPython ast and the builtin exception class hierarchy",
+    "the library model table (wzsa/effects.py MODEL_DOC), each entry a documented fact about CPython 3.12",
+    "name resolution of calls by the loader (unresolved dynamic calls are listed in the evidence)",
+    "fixed-arity tuple annotations of parameters (tuple[str, int | None]) for server / application supplied values",
+]
 ASSUMPTIONS = [
     "input model: client-controlled values are latin-1 str without control characters; server-controlled environ keys (wsgi.*, SERVER_NAME/PORT, SCRIPT_NAME, REQUEST_METHOD) are present and well-formed",
     "application-supplied callables (type= converters, cls= factories, user_agent_class) are outside the claim",
-    "RecursionError / MemoryError are out of model",
+    "RecursionError / MemoryError are out of model, except the size kind above",
+    "containers are followed by their local name: aliasing of a list / dict under a second name inside one function is not tracked",
 ]
 
 PARSERS = [
@@ -89,7 +107,7 @@ def entry_points(ctx: Ctx, eff: Effects) -> list[tuple[str, list[FuncInfo], Func
 
 def run(ctx: Ctx) -> None:
     repo = ctx.repo
-    ctx.rule("R7.1", "no exception outside werkzeug's HTTPException family escapes an entry point: every raising site reachable from it is covered by a handler on the path, a dominating guard idiom, or a reviewed-table line with a re-checked premise")
+    ctx.rule("R7.1", "no exception outside werkzeug's HTTPException family escapes an entry point: every raising site reachable from it is covered by a handler on the path, a dominating guard idiom, or a reviewed role whose premise is re-established on the current code")
     ctx.rule("R7.2", "every while loop reachable from an entry point makes progress on every path through its body")
     ctx.rule("R7.3", "the lenient decoders keep their fallbacks: (ValueError, TypeError) around conversions in _DictAccessorProperty.__get__ and TypeConversionDict.get; errors='werkzeug.url_quote' on both parse_qsl calls with that handler registered; _wsgi_decoding_dance decodes with errors='replace'")
 
@@ -101,10 +119,10 @@ def run(ctx: Ctx) -> None:
                 registered.add(astq.const_str(c.args[0]))
     eff = Effects(repo, registered)
     folder = Folder(repo)
-    ok_silent, why_silent = check_premise(ctx, folder, "form_parser_silent")
+    ok_silent, guard_txt, why_silent = p_form_parser_silent(ctx, folder)
     ctx.ob("R7.1", "form parsing on the request path runs in silent mode (its ValueError handler does not re-raise)", ok_silent, why_silent, repo.func("formparser.FormDataParser.parse"), None, "form parser silent mode")
-    if ok_silent:
-        eff.dead_reraise_guards.add("not self.silent")
+    if ok_silent and guard_txt:
+        eff.dead_reraise_guards.add(guard_txt)
     entries = entry_points(ctx, eff)
     ctx.floor("R7.1", "entry points", len(entries), 68)
     roots = []
@@ -112,21 +130,32 @@ def run(ctx: Ctx) -> None:
         for f in fs:
             if f not in roots:
                 roots.append(f)
+    eff.reachable(roots)
+    flow = Flow(eff, folder, {f.fq for f in roots})
+
+    def size_hook(fi, call, size) -> bool:
+        flow.site_ast = call
+        try:
+            return flow.unbounded_client_int(fi, size, flow.node(fi, call))
+        finally:
+            flow.site_ast = None
+
+    eff.size_hook = size_hook
     esc = eff.escapes(roots)
     for f in eff.reach.values():
         ctx.saw(f)
+    an = A(ctx, eff, folder, flow)
 
     # one obligation per (origin site, exception) that is not an allowed HTTPException and that escapes at least one entry point
     origins: dict[tuple[str, str, str], tuple[Site, str, list[str]]] = {}
     for label, fs, where, node in entries:
         escaping = set()
         for f in fs:
-            handler_filter = None
             escaping |= esc[f.fq]
         # descriptor entry: the conversion runs inside __get__'s (ValueError, TypeError) handler
         if len(fs) > 1:
             getter = fs[0]
-            conv_call = [c for c in astq.calls(getter.node) if norm(c.func) == "self.load_func"]
+            conv_call = [c for c in astq.calls(getter.node) if isinstance(c.func, ast.Attribute) and c.func.attr == "load_func"]
             filtered = set(esc[getter.fq])
             for f in fs[1:]:
                 for s, e in esc[f.fq]:
@@ -144,16 +173,22 @@ def run(ctx: Ctx) -> None:
     n_rev = n_guard = 0
     for key in sorted(origins):
         s, e, labels = origins[key]
-        how = _guard_idiom(ctx, eff, folder, s, e)
-        if how:
-            n_guard += 1
-            ctx.ob("R7.1", f"{s.func.qualname}: `{s.text}` may raise {e}", True, f"discharged by guard idiom: {how}", s.func, s.node, f"{s.text} raises {e}")
-            continue
-        rv = _reviewed(ctx, folder, s, e)
+        flow.cur = (s, e)
+        flow.site_ast = s.node
+        try:
+            how = _guard_idiom(an, s, e)
+            if how:
+                n_guard += 1
+                ctx.ob("R7.1", f"{s.func.qualname}: `{s.text}` may raise {e}", True, f"discharged by guard idiom: {how}", s.func, s.node, f"{s.text} raises {e}")
+                continue
+            rv = review(an, s, e)
+        finally:
+            flow.cur = None
+            flow.site_ast = None
         if rv is not None:
-            ok, reason = rv
+            role, ok, reason = rv
             n_rev += 1
-            ctx.ob("R7.1", f"{s.func.qualname}: `{s.text}` may raise {e}", ok, ("reviewed: " if ok else "reviewed entry's premise no longer holds: ") + reason, s.func, s.node, f"{s.text} raises {e}")
+            ctx.ob("R7.1", f"{s.func.qualname}: `{s.text}` may raise {e}", ok, (f"reviewed role '{role}': " if ok else f"reviewed role '{role}': premise does not hold: ") + reason, s.func, s.node, f"{s.text} raises {e}")
             continue
         root = next((fs[0] for lab, fs, _, _ in entries if lab == labels[0]), None)
         chain = " -> ".join(x.replace("werkzeug.", "") for x in (eff.chain(root, s, e) if root is not None else []))
@@ -166,136 +201,48 @@ def run(ctx: Ctx) -> None:
     ctx.extra["c07"] = {
         "entry_points": len(entries), "functions_reachable": len(eff.reach),
         "raising_sites_modelled": sum(len(eff.sites(f)) for f in eff.reach.values()),
-        "origins_escaping_some_entry": len(origins), "by_guard_idiom": n_guard, "by_reviewed_table": n_rev,
+        "origins_escaping_some_entry": len(origins), "by_guard_idiom": n_guard, "by_reviewed_role": n_rev,
         "unresolved_calls": {k: v for k, v in eff.unresolved.items() if v and k in eff.reach},
     }
-    # stale reviewed lines are noted (not an error: the risky site may have been removed by a fix)
-    used = {(s.func.fq, e) for (s, e, _) in origins.values()}
-    _r72(ctx, eff)
+    _r72(an)
     _r73(ctx, registered)
 
 
 # ---------------------------------------------------------------------
-# guard idioms
+# guard idioms: canonical atoms that dominate the use (fresh: no rebinding in between), value origins across helpers
 
 
-def _dominating_tests(fi: FuncInfo, node: ast.AST):
-    cfg = cfg_of(fi)
-    n = cfg.node_of(node)
-    if n is None:
-        return cfg, None, []
-    return cfg, n, cfg.guards(n)
-
-
-def _tuple_arity_of_call(ctx: Ctx, fi: FuncInfo, call: ast.AST) -> int | None:
-    """minimum length of the tuple a call returns, when every return of the (package) callee is a tuple literal."""
-    if not isinstance(call, ast.Call):
-        return None
-    if isinstance(call.func, ast.Attribute) and call.func.attr in ("partition", "rpartition"):
-        return 3
-    d = dotted(call.func)
-    if not d:
-        return None
-    li = fi.module.local_imports(fi.node)
-    fq = ctx.repo.resolve(fi.module, d, li)
-    if fq in ("os.path.split", "os.path.splitext", "posixpath.split", "posixpath.splitext"):
-        return 2
-    f = ctx.repo.try_func(fq) if fq and fq.startswith("werkzeug.") else None
-    if f is None:
-        return None
-    rets = astq.returns_of(f.node)
-    ar = []
-    for r in rets:
-        if isinstance(r.value, ast.Tuple) and not any(isinstance(x, ast.Starred) for x in r.value.elts):
-            ar.append(len(r.value.elts))
-        else:
-            return None
-    return min(ar) if ar else None
-
-
-def _guard_idiom(ctx: Ctx, eff: Effects, folder: Folder, s: Site, e: str) -> str | None:
+def _guard_idiom(an: A, s: Site, e: str) -> str | None:
     fi = s.func
+    flow = an.flow
+    node = flow.node(fi, s.node)
+    if node is None:
+        return None
     if s.kind == "match-attr":
-        cfg, n, guards = _dominating_tests(fi, s.node)
         nm = s.node.value.id  # type: ignore[attr-defined]
-        for t, l in guards:
-            txt = norm(t.ast)
-            if (txt == nm and l == "T") or (txt == f"{nm} is not None" and l == "T") or (txt == f"{nm} is None" and l == "F"):
-                return f"`{txt}` is {l} on every path to the use"
-            if isinstance(t.ast, ast.Compare) and isinstance(t.ast.left, ast.NamedExpr) and t.ast.left.target.id == nm and norm(t.ast.comparators[0]) == "None" and ((isinstance(t.ast.ops[0], ast.IsNot) and l == "T") or (isinstance(t.ast.ops[0], ast.Is) and l == "F")):
-                return f"walrus test `{txt}` is {l}"
-            if isinstance(t.ast, ast.NamedExpr) and t.ast.target.id == nm and l == "T":
-                return f"walrus test `{txt}` is true"
-        # a loop `while ...: match = P.match(..); if match is None: break` is covered by the above; nothing else accepted
+        at = flow.holds(fi, node, lambda at: (at.op == "truthy" and at.truth and norm(at.a) == nm) or (at.op == "is" and not at.truth and norm(at.a) == nm and astq.is_none(at.b)))
+        if at is not None:
+            return f"`{norm(at.test.ast)}` is {at.label} on every path to the use and `{nm}` is not rebound in between"
         return None
     if s.kind == "unpack-split":
         call = s.node.value  # type: ignore[attr-defined]
         k = len(s.node.targets[0].elts)  # type: ignore[attr-defined]
-        sep = call.args[0] if call.args else None
-        recv = norm(call.func.value)
-        if sep is not None and k == 2:
-            cfg, n, guards = _dominating_tests(fi, s.node)
-            for t, l in guards:
-                if isinstance(t.ast, ast.Compare) and len(t.ast.ops) == 1 and norm(t.ast.left) == norm(sep) and norm(t.ast.comparators[0]) == recv:
-                    if (isinstance(t.ast.ops[0], ast.In) and l == "T") or (isinstance(t.ast.ops[0], ast.NotIn) and l == "F"):
-                        return f"`{norm(t.ast)}` is {l} on every path to the unpacking"
+        sep = const_text(call.args[0]) if call.args else None
+        mx = const_int(astq.arg_or_kw(call, 1, "maxsplit"))
+        if sep and k == 2 and mx == 1:
+            if sep in flow.contained(fi, call.func.value, node):
+                return f"`{sep!r} in {norm(call.func.value)}` is established on every path to the unpacking (dominating test, or at every call site for a parameter)"
         return None
     if s.kind == "const-index":
         sub = s.node
-        base = sub.value  # type: ignore[attr-defined]
-        idx = sub.slice  # type: ignore[attr-defined]
-        val = idx.value if isinstance(idx, ast.Constant) else -idx.operand.value
+        val = const_int(sub.slice)  # type: ignore[attr-defined]
+        if val is None:
+            return None
         need = val + 1 if val >= 0 else -val
-        ar = _tuple_arity_of_call(ctx, fi, base)
-        if ar is not None and ar >= need:
-            return f"base is a call returning a tuple of {ar} element(s)"
-        if isinstance(base, ast.Call) and isinstance(base.func, ast.Attribute) and base.func.attr in ("split", "rsplit", "splitlines") and val == 0 and base.func.attr != "splitlines":
-            return "str.split always returns at least one element"
-        cfg = cfg_of(fi)
-        n = cfg.node_of(sub)
-        if isinstance(base, ast.Name) and n is not None:
-            rd = ReachingDefs(cfg, fi.params)
-            defs = rd.reaching(n, base.id)
-            if defs and all(d.value is not None and d.index is None and d.kind in ("assign", "walrus") and ((_tuple_arity_of_call(ctx, fi, d.value) or 0) >= need or (isinstance(d.value, ast.Tuple) and len(d.value.elts) >= need) or (val == 0 and isinstance(d.value, ast.Call) and isinstance(d.value.func, ast.Attribute) and d.value.func.attr in ("split", "rsplit"))) for d in defs):
-                return f"`{base.id}` is bound to a tuple/split result of sufficient length on every path"
-            # for-loop target over a sequence of pairs built in this function is not attempted
-        if isinstance(base, ast.Attribute) and astq.is_self_attr(base) and fi.cls is not None:
-            # attribute assigned (anywhere in the class) only from tuple-returning calls
-            vals = []
-            for m in fi.cls.methods.values():
-                for st in walk_no_nested(m.node):
-                    if isinstance(st, ast.Assign) and any(astq.is_self_attr(tg, base.attr) for tg in st.targets):
-                        vals.append((m, st.value))
-            if vals and all((_tuple_arity_of_call(ctx, m, v) or 0) >= need for m, v in vals):
-                return f"self.{base.attr} is only ever assigned a tuple of sufficient length"
-        if n is not None:
-            bt = norm(base)
-            for t, l in cfg.guards(n):
-                txt = norm(t.ast)
-                if txt == bt and l == "T" and need == 1:
-                    return f"`{bt}` is truthy (non-empty) on every path"
-                if isinstance(t.ast, ast.Compare) and len(t.ast.ops) == 1 and norm(t.ast.left) == f"len({bt})" and isinstance(t.ast.comparators[0], ast.Constant) and isinstance(t.ast.comparators[0].value, int):
-                    c = t.ast.comparators[0].value
-                    op = t.ast.ops[0]
-                    lo = None
-                    if l == "T":
-                        lo = c if isinstance(op, (ast.GtE, ast.Eq)) else c + 1 if isinstance(op, ast.Gt) else None
-                    else:
-                        lo = c if isinstance(op, ast.Lt) else c + 1 if isinstance(op, ast.LtE) else None
-                    if lo is not None and lo >= need:
-                        return f"`{txt}` is {l}: length >= {lo}"
+        got = flow.minlen(fi, sub.value, node)  # type: ignore[attr-defined]
+        if got >= need:
+            return f"`{norm(sub.value)}` has at least {got if got < INF else 'any number of'} element(s) on every path (value origins: tuple / split / regex group widths, dominating tests, call sites): index {val} exists"  # type: ignore[attr-defined]
         return None
-    return None
-
-
-def _reviewed(ctx: Ctx, folder: Folder, s: Site, e: str):
-    for r in REVIEWED:
-        if r["func"] == s.func.fq.replace("werkzeug.", "", 1) and r["exc"] == e and (s.text.startswith(r["expr"]) or r["expr"] in s.text):
-            prem = r.get("premise")
-            if prem:
-                ok, why = check_premise(ctx, folder, prem)
-                return ok, f"{r['reason']} [premise {prem}: {why}]"
-            return True, r["reason"]
     return None
 
 
@@ -303,80 +250,264 @@ def _reviewed(ctx: Ctx, folder: Folder, s: Site, e: str):
 # R7.2 loop progress
 
 
-def _r72(ctx: Ctx, eff: Effects) -> None:
+NEXT_EVENT = "werkzeug.sansio.multipart.MultipartDecoder.next_event"
+
+
+def _r72(an: A) -> None:
+    ctx = an.ctx
     n = 0
-    for f in eff.reach.values():
+    for f in an.eff.reach.values():
         for w in walk_no_nested(f.node):
             if not isinstance(w, ast.While):
                 continue
             n += 1
-            ok, why = _progress(ctx, f, w)
-            if not ok:
-                rv = None
-                for r in REVIEWED:
-                    if r["func"] == f.fq.replace("werkzeug.", "", 1) and r["exc"] == "non-termination" and r["expr"] in norm(w.test) + " :: " + why:
-                        rv = r
-                if rv is not None:
-                    prem = rv.get("premise")
-                    if prem:
-                        ok, pw = check_premise(ctx, Folder(ctx.repo), prem)
-                        why = f"reviewed: {rv['reason']} [premise {prem}: {pw}]"
-                    else:
-                        ok, why = True, f"reviewed: {rv['reason']}"
+            ok, why = _progress(an, f, w)
             ctx.ob("R7.2", f"{f.qualname}: `while {norm(w.test)[:40]}` makes progress", ok, why, f, w, f"while {norm(w.test)[:60]}")
     ctx.floor("R7.2", "while loops reachable from entry points", n, 3)
 
 
-def _progress(ctx: Ctx, f: FuncInfo, w: ast.While) -> tuple[bool, str]:
-    """every path through the body either leaves the loop or strictly advances the loop variable."""
+def _leaves_loop(cfg, tn, label: str, body_ids: set[int]) -> bool:
+    succ = cfg.succ(tn, label)
+    return bool(succ) and all(x.ast is None or id(x.ast) not in body_ids or isinstance(x.ast, ast.Break) for x in succ)
+
+
+def _every_cycle_passes(cfg, p, through, head, body_ids: set[int]) -> bool:
+    """inside the loop, p cannot be reached again from its successors without passing `through`."""
+    if p is through:
+        return True
+    outside = [n for n in cfg.nodes if n is not head and (n.ast is None or id(n.ast) not in body_ids)]
+    starts = [x for x, _ in p.succs if x is not through and x not in outside]
+    if not starts:
+        return True
+    return p.id not in cfg.reach(starts, avoid_nodes=[through] + outside)
+
+
+def _progress(an: A, f: FuncInfo, w: ast.While) -> tuple[bool, str]:
+    """every path through the body either leaves the loop or passes a statement that strictly advances."""
+    ctx, flow = an.ctx, an.flow
     cfg = cfg_of(f)
     heads = cfg.by_ast.get(id(w)) or []
     if not heads:
         return False, "no CFG node"
     head = heads[0]
     body_ids = {id(x) for st in w.body for x in ast.walk(st)} | {id(x) for x in ast.walk(w.test)}
-    # progress statements: `pos += <positive>`, `rest = rest[k:]` with k >= 1 (incl. end + 1 where end = rest.find(..) != -1), `pos = match.end()`
+    rd = flow.rd(f)
     prog_nodes = []
     facts = []
     for n_ in cfg.nodes:
         a = n_.ast
-        if a is None or id(a) not in body_ids:
+        if a is None or id(a) not in body_ids or n_ is head:
             continue
-        if isinstance(a, ast.AugAssign) and isinstance(a.op, ast.Add) and isinstance(a.value, ast.Constant) and isinstance(a.value.value, int) and a.value.value > 0:
-            prog_nodes.append(n_)
-            facts.append(norm(a))
-        elif isinstance(a, ast.Assign) and _slice_of(a.value) is not None and norm(a.targets[0]) == norm(_slice_of(a.value).value) and _slice_of(a.value).slice.lower is not None:
-            lo = _slice_of(a.value).slice.lower
-            good = False
-            if isinstance(lo, ast.Constant) and isinstance(lo.value, int) and lo.value >= 1:
-                good = True
-            elif isinstance(lo, ast.Call) and isinstance(lo.func, ast.Attribute) and lo.func.attr == "end":
-                good = None  # needs pattern width >= 1: decided below
-                mname = norm(lo.func.value)
-                good = _match_min_width(ctx, f, mname) >= 1
-            elif isinstance(lo, ast.BinOp) and isinstance(lo.op, ast.Add) and isinstance(lo.right, ast.Constant) and lo.right.value >= 1:
-                # rest = rest[end + 1:], end from find() and tested != -1 on the path
-                good = True
-            if good:
+        if n_.kind not in ("stmt", "test"):
+            continue
+        if isinstance(a, ast.AugAssign) and isinstance(a.op, ast.Add) and isinstance(a.target, ast.Name):
+            lb = flow.int_lb(f, a.value, n_)
+            if lb is not None and lb >= 1:
                 prog_nodes.append(n_)
                 facts.append(norm(a))
-        elif isinstance(a, ast.Assign) and isinstance(a.value, ast.Call) and isinstance(a.value.func, ast.Attribute) and a.value.func.attr == "end" and not a.value.args:
-            mname = norm(a.value.func.value)
-            if _match_min_width(ctx, f, mname) >= 1:
+                continue
+        if isinstance(a, ast.Assign) and len(a.targets) == 1 and _slice_of(a.value) is not None and norm(a.targets[0]) == norm(_slice_of(a.value).value) and _slice_of(a.value).slice.lower is not None and _slice_of(a.value).slice.step is None:
+            lo = _slice_of(a.value).slice.lower
+            good = None
+            if isinstance(lo, ast.Call) and isinstance(lo.func, ast.Attribute) and lo.func.attr == "end" and not lo.args:
+                rx = flow.regex_of_match(f, lo.func.value, n_)
+                if rx is not None and width(rx)[0] >= 1 and _match_at_start(flow, f, lo.func.value, n_, a.targets[0]):
+                    good = f"{norm(a)} (pattern min width >= 1)"
+            else:
+                lb = flow.int_lb(f, lo, n_)
+                if lb is not None and lb >= 1:
+                    good = f"{norm(a)} (lower bound >= {lb if lb < INF else 1})"
+            if good:
                 prog_nodes.append(n_)
-                facts.append(norm(a) + " (pattern min width >= 1)")
-    # from the first body node, can we come back to the loop head avoiding all progress nodes?
-    starts = [s for s, l in head.succs] if head.kind == "join" else cfg.succ(head, "T")
-    # head is a join node for while loops: follow the condition atoms
-    r = set()
-    for s in starts:
-        r |= cfg.reach(s, avoid_nodes=prog_nodes + [head])
-    back = any(p.id in r or p is s for p, _ in head.preds for s in [p] if id(p.ast) in body_ids and p.id in r)
-    # a predecessor of head inside the body reachable without progress => a non-progressing iteration
+                facts.append(good)
+                continue
+        if isinstance(a, ast.Assign) and len(a.targets) == 1 and isinstance(a.targets[0], ast.Name) and isinstance(a.value, ast.Call) and isinstance(a.value.func, ast.Attribute) and a.value.func.attr == "end" and not a.value.args:
+            how = _end_progress(an, f, n_, a.targets[0].id, a.value.func.value)
+            if how:
+                prog_nodes.append(n_)
+                facts.append(f"{norm(a)} ({how})")
+                continue
+        # reviewed progress makers, identified by what is called
+        for c in [x for x in ([a] if isinstance(a, ast.Call) else []) + list(walk_no_nested(a)) if isinstance(x, ast.Call)]:
+            how = _event_progress(an, f, w, head, body_ids, n_, c) or _stream_read_progress(an, f, w, head, body_ids, n_, c)
+            if how:
+                prog_nodes.append(n_)
+                facts.append(how)
+                break
+    starts = [s for s, l in head.succs if s not in prog_nodes]
+    r = cfg.reach(starts, avoid_nodes=prog_nodes + [head]) if starts else set()
     stuck = [p for p, _ in head.preds if p.ast is not None and id(p.ast) in body_ids and p.id in r and p not in prog_nodes]
     if stuck:
         return False, f"an iteration can return to the loop head without progress (e.g. after `{stuck[0].text()[:50]}`); progress statements: {facts}"
     return True, f"every iteration passes one of: {facts}" if facts else "loop body always leaves the loop"
+
+
+def _match_at_start(flow: Flow, f: FuncInfo, m: ast.AST, node, target: ast.AST) -> bool:
+    """the match object comes from R.match(<target>) / R.search(<target>): its end() counts from the start of target."""
+    if not isinstance(m, ast.Name):
+        return False
+    for d in flow.rd(f).reaching(node, m.id):
+        v = d.value
+        if not (d.kind in ("assign", "walrus") and isinstance(v, ast.Call) and len(v.args) == 1 and norm(v.args[0]) == norm(target)):
+            return False
+    return True
+
+
+def _empty_needs_end(seq) -> bool:
+    """the sequence can match the empty string only by passing an end-of-string assertion."""
+    for op, av in seq:
+        if op is sre_c.AT:
+            if av in (sre_c.AT_END, sre_c.AT_END_STRING):
+                return True
+            continue
+        if op in (sre_c.MAX_REPEAT, sre_c.MIN_REPEAT):
+            if av[0] >= 1 and (av[2].getwidth()[0] >= 1 or _empty_needs_end(av[2])):
+                return True
+            continue
+        if op is sre_c.SUBPATTERN:
+            if av[3].getwidth()[0] >= 1 or _empty_needs_end(av[3]):
+                return True
+            continue
+        if op is sre_c.BRANCH:
+            if all(b.getwidth()[0] >= 1 or _empty_needs_end(b) for b in av[1]):
+                return True
+            continue
+        if op in (sre_c.ASSERT, sre_c.ASSERT_NOT, sre_c.GROUPREF, sre_c.GROUPREF_EXISTS):
+            continue
+        return True  # literal / class / any: width >= 1
+    return False
+
+
+def _end_progress(an: A, f: FuncInfo, node, pos: str, m: ast.AST) -> str | None:
+    """`pos = M.end()` where M = R.match(S, pos): strictly greater than pos when R cannot match empty there."""
+    flow = an.flow
+    if not isinstance(m, ast.Name):
+        return None
+    subj = None
+    for d in flow.rd(f).reaching(node, m.id):
+        v = d.value
+        if not (d.kind in ("assign", "walrus") and isinstance(v, ast.Call) and isinstance(v.func, ast.Attribute) and v.func.attr in ("match", "search") and len(v.args) == 2 and isinstance(v.args[1], ast.Name) and v.args[1].id == pos):
+            return None
+        if subj is not None and subj != norm(v.args[0]):
+            return None
+        subj = norm(v.args[0])
+    rx = flow.regex_of_match(f, m, node)
+    if rx is None or subj is None:
+        return None
+    if width(rx)[0] >= 1:
+        return "pattern min width >= 1"
+    if rx.flags & re.M:
+        return None
+    try:
+        tail = _empty_needs_end(rx.parsed())
+    except Exception:
+        return None
+    if not tail:
+        return None
+    # an empty match needs `$` at pos, i.e. pos == len(S): excluded by the loop test pos < len(S)
+    at = flow.holds(f, node, lambda at: at.op == "lt" and at.truth and norm(at.a) == pos and norm(at.b) == f"len({subj})")
+    if at is None:
+        return None
+    return f"an empty match of {rx.pattern!r} needs `$` at {pos} (no re.M; no newline in the input model), excluded by `{norm(at.test.ast)}`"
+
+
+def _event_progress(an: A, f: FuncInfo, w: ast.While, head, body_ids, node, call: ast.Call) -> str | None:
+    """the loop that drains MultipartDecoder.next_event(): every cycle asks for a new event and leaves on NEED_DATA."""
+    flow = an.flow
+    gs = flow.resolve_callee(f, call)
+    if not any(g.fq == NEXT_EVENT for g in gs):
+        return None
+    cfg = cfg_of(f)
+    li = f.module.local_imports(f.node)
+    for tn in cfg.nodes:
+        if tn.kind != "test" or id(tn.ast) not in body_ids:
+            continue
+        t_ = tn.ast
+        if not (isinstance(t_, ast.Call) and dotted(t_.func) == "isinstance" and len(t_.args) == 2 and isinstance(t_.args[0], ast.Name)):
+            continue
+        types = t_.args[1].elts if isinstance(t_.args[1], ast.Tuple) else [t_.args[1]]
+        if not any((an.repo.resolve(f.module, dotted(x) or "?", li) or "").endswith(".NeedData") for x in types):
+            continue
+        if not _leaves_loop(cfg, tn, "T", body_ids):
+            continue
+        defs = flow.rd(f).reaching(tn, t_.args[0].id)
+        if not defs or not all(d.kind in ("assign", "walrus") and isinstance(d.value, ast.Call) and any(g.fq == NEXT_EVENT for g in flow.resolve_callee(f, d.value)) for d in defs):
+            continue
+        if not _every_cycle_passes(cfg, node, tn, head, body_ids):
+            continue
+        ok, why = _next_event_premise(an)
+        if not ok:
+            return None
+        return f"`{norm(call)}` (reviewed: every event other than NEED_DATA comes with a buffer deletion or a state change, so a bounded buffer yields finitely many events; the loop leaves on `{norm(t_)}`) [{why}]"
+    return None
+
+
+def _next_event_premise(an: A) -> tuple[bool, str]:
+    f = an.repo.func("sansio.multipart.MultipartDecoder.next_event")
+    cfg = cfg_of(f)
+    sn = f.params[0]
+    rets = astq.returns_of(f.node)
+    names = {r.value.id for r in rets if isinstance(r.value, ast.Name)}
+    if len(names) != 1 or len(names) != len({norm(r.value) for r in rets if r.value is not None}):
+        raise AnalysisError("C07 next_event: the returned event is not a single local name")
+    ev = names.pop()
+    prog = [n for n in cfg.nodes if (isinstance(n.ast, ast.Delete) and any(isinstance(t_, ast.Subscript) and astq.is_self_attr(t_.value, "buffer", sn) for t_ in n.ast.targets)) or (isinstance(n.ast, ast.Assign) and any(astq.is_self_attr(t_, "state", sn) for t_ in n.ast.targets))]
+    facts = []
+    ok = True
+    nev = 0
+    for n in cfg.nodes:
+        for d in an.flow.rd(f).gen.get(n.id, []):
+            if d.name != ev:
+                continue
+            if d.kind == "assign" and d.index is None and isinstance(d.value, ast.Name):
+                continue  # the NEED_DATA default
+            if not (d.kind == "assign" and d.index is None and isinstance(d.value, ast.Call)):
+                raise AnalysisError(f"C07 next_event: `{norm(d.stmt)[:50]}` binds the event in a shape that is not understood")
+            nev += 1
+            good = cfg.all_paths_pass(cfg.entry, [n], prog) or cfg.all_paths_pass(n, [cfg.exit], prog)
+            facts.append(f"{norm(d.value.func)}: {good}")
+            ok = ok and good
+    if not nev:
+        raise AnalysisError("C07 next_event: no event construction found")
+    return ok, "event construction accompanied by a buffer deletion / state change on every path: " + ", ".join(facts)
+
+
+def _stream_read_progress(an: A, f: FuncInfo, w: ast.While, head, body_ids, node, call: ast.Call) -> str | None:
+    """the loop that reads chunks from the request stream and leaves on an empty read."""
+    flow = an.flow
+    fn = call.func
+    is_read = (isinstance(fn, ast.Attribute) and fn.attr == "read") or (isinstance(fn, ast.Name) and fn.id in f.params and _bound_to_read(an, f, fn.id))
+    if not is_read:
+        return None
+    cfg = cfg_of(f)
+    for tn in cfg.nodes:
+        if tn.kind != "test" or id(tn.ast) not in body_ids:
+            continue
+        t_ = tn.ast
+        nm = t_.target.id if isinstance(t_, ast.NamedExpr) else t_.id if isinstance(t_, ast.Name) else None
+        if nm is None or not _leaves_loop(cfg, tn, "F", body_ids):
+            continue
+        if isinstance(t_, ast.NamedExpr):
+            fresh = t_.value is call
+        else:
+            defs = flow.rd(f).reaching(tn, nm)
+            fresh = bool(defs) and all(d.kind in ("assign", "walrus") and d.value is call for d in defs)
+        if not fresh or not _every_cycle_passes(cfg, node, tn, head, body_ids):
+            continue
+        return f"`{norm(call)}` (reviewed: each iteration reads from the request stream, which is finite (C09 bounds it); the loop leaves when the read is empty: `{norm(t_)}` false)"
+    return None
+
+
+def _bound_to_read(an: A, f: FuncInfo, pname: str) -> bool:
+    """a callable parameter that every call site on the request path binds to <stream>.read."""
+    cal = an.flow.callers(f)
+    if not cal:
+        return False
+    for g, n, kind in cal:
+        b = an.flow.bind(f, n, pname) if kind == "call" else None
+        if b is None or b[0] != "arg" or not (isinstance(b[1], ast.Attribute) and b[1].attr == "read"):
+            return False
+    return True
 
 
 def _slice_of(v: ast.AST):
@@ -386,20 +517,6 @@ def _slice_of(v: ast.AST):
     if isinstance(v, ast.Subscript) and isinstance(v.slice, ast.Slice):
         return v
     return None
-
-
-def _match_min_width(ctx: Ctx, f: FuncInfo, mname: str) -> int:
-    folder = Folder(ctx.repo)
-    for _, v in astq.assigns_to(f.node, mname, nested=True):
-        if isinstance(v, ast.Call) and isinstance(v.func, ast.Attribute) and v.func.attr in ("match", "search", "fullmatch"):
-            d = dotted(v.func.value)
-            try:
-                rx = folder.name(f.module, d or "")
-            except Unfoldable:
-                return 0
-            if isinstance(rx, RegexConst):
-                return width(rx)[0]
-    return 0
 
 
 # ---------------------------------------------------------------------
